@@ -86,6 +86,19 @@ def check_rebalance(chk, f, what):
                     # a disjunction/conjunction that is only partly decided on this edge contributes nothing: require a decided atom
                 al = "|".join(re.escape(x) for x in alias)
                 okb = any(t and (re.match(r"^\((\w+) == (%s)->height\)$" % al, k) or re.match(r"^\((%s)->height == (\w+)\)$" % al, k)) for k, t in facts)
+                if not okb and blk.get("cond") is not None and len(blk["succ"]) == 2:
+                    # the walk's own bound, spelled as a statement inside the body instead of as the loop condition: the walked node has
+                    # run out (null) or has reached a local / parameter that the loop does not change (`if(parent == origParent) break;`)
+                    truth_ = blk["succ"][0] == s and blk["succ"][1] != s
+                    for an_, tr_ in q.cond_atoms(f, blk["cond"], truth_):
+                        cn_ = fin._canon(f, an_, tr_)
+                        if cn_[0] == "val" and cn_[1] in alias and not cn_[2]:
+                            okb = True
+                        elif cn_[0] != "val" and cn_[1] == "==" and (cn_[0] in alias or cn_[2] in alias):
+                            oth_ = cn_[2] if cn_[0] in alias else cn_[0]
+                            stored_ = any(f.r(st_.lhs) == oth_ and (f.node_pos(st_.node) or (None,))[0] in lb for st_ in q.stores(f))
+                            if re.match(r"^\w+$", oth_) and not stored_:
+                                okb = True
                 # the edge must not be reachable through another, undecided condition: the successor outside the loop has this block as its only loop predecessor
                 others = [p for p in f.preds.get(s, []) if p in lb and p != u]
                 if not okb or others:
@@ -143,6 +156,17 @@ def run(prog, chk):
                         if n["k"] == "MemberExpr" and n["m"] in ("key", "value") and n["c"] and f.r(n["c"][0]) == name and C.loop_blocks(f, i):
                             atoms = fin.dominating_atoms(f, f.node_pos(i))
                             guard = any(a[0] != "case" and re.search(r"\b%s (!=|==) (&this->endItem|end)\b|\b(&this->endItem|end) (!=|==) %s\b" % (name, name), fin.key(f, a[0])) for a in atoms)
+                            if not guard:
+                                # the sentinel may be named by any local (or written out): compare by what the other side designates
+                                for a in atoms:
+                                    if a[0] == "case":
+                                        continue
+                                    an = f.nodes[f.strip(a[0])]
+                                    sides = an["c"][-2:] if an["k"] in ("BinaryOperator", "CXXOperatorCallExpr") and (an.get("op") or an.get("oop")) in ("==", "!=") else []
+                                    if len(sides) == 2 and name in [q.no_casts(f.r(x)) for x in sides]:
+                                        oth = [x for x in sides if q.no_casts(f.r(x)) != name]
+                                        if oth and re.search(r"&(this->|\w+\.)endItem\)*$", q.no_casts(q.xr(f, oth[0], defs))):
+                                            guard = True
                             lock = f.short in ("operator==",)   # lock-step walk of two lists of equal _size (recognised idiom)
                             if guard or lock:
                                 chk.ok("C01.b", f, "`%s->%s` read only after the sentinel comparison" % (name, n["m"]), f.where(i), "dominating atom", evals=len(atoms))
